@@ -9,7 +9,7 @@ MUST_ENTER = [('a5/core/cell.py', 'cell_to_boundary'), ('a5/core/coordinate_tran
               ('a5/geometry/pentagon.py', 'split_edges')]
 CLOSED = ['omit', True, False]
 SEGS = ['omit', None, 'auto', 1, 2, 3, 7, 16]
-RULE = ('cells x 24 option combinations (closed_ring in {omitted, True, False} x segments in {omitted, None, "auto", 1, 2, 3, 7, 16}, on 6% of the cells also 33..257; also '
+RULE = ('cells x 24 option combinations (closed_ring in {omitted, True, False} x segments in {omitted, None, "auto", 1, 2, 3, 7, 16}, on 6% of the cells also 33..257 and one log-uniform random count in 17..600; also '
         'options=None): all cells of levels 0..3 (quick) / 0..5 (thorough); cells straddling the antimeridian, touching a pole or a '
         'frame point, and structured deep ids at r in 4..29. Per ring: vertex count (3 at r=1 else 5) x s [+1], closure iff closed_ring, '
         'latitudes in [-90,90], counter-clockwise and simple in the gnomonic plane at the centroid, corner points independent of the '
@@ -122,7 +122,7 @@ def eval_cell(a5, geo, c, r, cls, ctx, combos=None):
                     ctx.count('rings_extending_past_antimeridian')
     if combos is None and ctx.rnd.random() < 0.06:
         # the property covers every integer segment count: a few large ones (count, closure, corners only)
-        for sg in (ctx.rnd.choice((33, 64, 65)), ctx.rnd.choice((100, 128, 257))):
+        for sg in (ctx.rnd.choice((33, 64, 65)), ctx.rnd.choice((100, 128, 257)), int(10 ** ctx.rnd.uniform(math.log10(17), math.log10(600)))):
             opts = {'segments': sg, 'closed_ring': ctx.rnd.choice((True, False))}
             case = {'cell': c, 'r': r, 'cls': cls, 'closed_ring': opts['closed_ring'], 'segments': sg}
             ctx.case((c, opts['closed_ring'], sg))
